@@ -14,7 +14,7 @@ def build(ctx):
 
 def _shard(exe, frugal, mode, tier, i, n, work, extra):
     os.makedirs(work, exist_ok=True)
-    cmd = [exe, "-mode", mode, "-tier", tier, "-shard", str(i), "-nshards", str(n), "-work", work, "-frugal", frugal] + extra
+    cmd = [exe, "-mode", mode, "-tier", tier, "-shard", str(i), "-nshards", str(n), "-work", work, "-frugal", frugal, "-repo", runner.REPO] + extra
     try:
         p = subprocess.run(cmd, env=GOENV, capture_output=True, text=True, timeout=7200)
     except subprocess.TimeoutExpired:
